@@ -204,6 +204,8 @@ class SimServer:
         ch = self.ch
         with ch.abs_scope(scope):
             c = ch.srv.weighted("enc.code", [4, 2, 3, 2])
+            if code is not None and code[0] == b"SASL":
+                c = 0      # final SASL data is part of the exchange, not decoration: a conforming server cannot drop it
             if c == 1:
                 code = None
             elif c == 2:
